@@ -777,6 +777,37 @@ class Exec(CallsMixin, Interp):
         self.p.filter_maps = getattr(self.p, 'filter_maps', []) + [(idx, inv)]
         return out
 
+    def e_SetComp(self, node):
+        """{f(x) for x in seq}: the image set (membership by an existential over the source)."""
+        if len(node.generators) != 1 or node.generators[0].ifs:
+            raise Unsupported('set comprehension form')
+        g = node.generators[0]
+        tag, src = self.iter_source(self.eval(g.iter))
+        if tag == 'set':
+            src, tag = self.set_to_seq(src), 'seq'
+        if tag == 'empty':
+            return PyObj('emptyset')
+        if tag != 'seq':
+            raise Unsupported('set comprehension over %s' % tag)
+        q = self.p.fresh('sc!i', z3.IntSort())
+        saved = dict(self.env)
+        saved_spec, self.spec = self.spec, True
+        try:
+            self.assign_to(g.target, K.seq_get(src, q))
+            e = self.eval(node.elt)
+        finally:
+            self.spec = saved_spec
+            self.env = saved
+        kind = K.Set(e.kind)
+        out = self.p.fresh_value(kind, 'setcomp')
+        self.assume_valid(out)
+        xs = [self.p.fresh('sc!x', srt) for srt in e.kind.leaf_sorts()]
+        n = K.seq_len(src)
+        self.p.assume(K.forall(xs, K.nsel(out.terms[1], xs) == z3.Exists([q], z3.And(
+            0 <= q, q < n, *[x == t for x, t in zip(xs, e.terms)])), patterns=[K.nsel(out.terms[1], xs)]))
+        self.p.assume(K.forall([q], z3.Implies(z3.And(0 <= q, q < n), K.nsel(out.terms[1], e.terms))))
+        return out
+
     def e_ListComp(self, node):
         return self.comprehension(node.elt, node.generators, 'list')
 
